@@ -568,6 +568,23 @@ impl<'a> Search<'a> {
             self.report(t, h, issues);
             h.pop();
         }
+        // after all the operations that must not have changed anything, a flush of the live
+        // object must still produce exactly the queued samples (catches hidden counters that a
+        // rejected write or a query disturbed)
+        if !r.fifo.is_empty() {
+            let mut r2 = r.clone();
+            let mut issues = vec![];
+            let res = guarded(|| step(&mut m, &mut r2, self.cfg, &FOp::Flush, &mut issues));
+            t.transitions += 1;
+            h.push(FOp::Flush);
+            if let Err(p) = res {
+                issues.push((if self.prop == "C11" { "C11" } else { "C10" }, "panic".into(), p));
+            }
+            // the history shown omits the self-loop operations executed before this flush
+            let tagged: Vec<Issue> = issues.into_iter().map(|(p, s, d)| (p, format!("after-self-loops/{s}"), format!("(after queries / rejected writes on the same object) {d}"))).collect();
+            self.report(t, h, tagged);
+            h.pop();
+        }
         if h.len() >= self.depth {
             t.traces += 1;
             return;
